@@ -802,6 +802,28 @@ def conv_race(rng, T):
     return {"kind": "conv_race", "class": c["py"], "attr": f["attr"], "fn": f["name"], "texts": texts, "hot": "to_value|_missing_", "hot_budget": rng.choice([6, 20])}
 
 
+def client_lock(rng, T):
+    """C09: callbacks that take a client-side lock, and a second thread that (un)registers callbacks or closes the subunit while holding that
+    lock, with the receiver reporting values all the time"""
+    c = rng.choice([x for x in T["classes"] if x["id"] in ("MAIN", "ZONE2", "SYS", "TUN", "NETRADIO")])
+    fns = [f for f in c["fns"] if f["get"] and f["name"] != "VERSION"]
+    unsol = []
+    t = 3.0
+    for _ in range(rng.randint(20, 60)):
+        f = rng.choice(fns)
+        unsol.append([round(t, 4), f"@{c['id']}:{f['name']}={_value_for(rng, T, f)}"])
+        t += rng.choice([0.001, 0.01, 0.02, 0.05])
+    ops2 = [["sleep", 3.0 + rng.choice([0.0, 0.005, 0.05])]]
+    for _ in range(rng.randint(2, 6)):
+        ops2.append(rng.choice([["unreg_update", rng.randint(1, 3)], ["reg_update", rng.randint(2, 5)], ["unreg_msg", rng.randint(1, 3)], ["reg_msg", rng.randint(2, 5)], ["hold", 0.03]]))
+        ops2.append(["sleep", rng.choice([0.0, 0.001, 0.01, 0.04])])
+    if rng.random() < 0.3:
+        ops2.append(["close_subunit"])
+    table = device_table(rng, T, [c["id"]], p_answer=0.3)
+    dev = {"type": "scripted", "latency": 0.0, "table": table, "unsolicited": unsol, "avail": {c["id"]: "Ready"}}
+    return {"kind": "client_lock", "class": c["py"], "device": dev, "ops2": ops2, "settle": round(t - 3.0 + 1.0, 3)}
+
+
 def set_race(rng, T):
     """C11 flavour: two threads assign stepped numbers through the same class-level descriptor / converter (two instances of one class, or two
     classes sharing the function through a base class or mix-in), with thread switches between any two bytecodes of the write path, repeats
